@@ -373,9 +373,6 @@ def keysXo (o : Option XSa) : List Key := match o with | some n => keysX n | non
 def SuccWf (a p : Bytes) (o : Option XSa) : Prop :=
   ∀ n, o = some n → n.core.myAddr = a ∧ n.core.peerAddr = p ∧ n.core.children = n.ext.kids.map Child.ref
 
-/-- REKEYED, DEL_AFTER_REKEY_IKE_SA_REQ_SENT, DELETED: the states after the hand-over -/
-def inPost (st : Nat) : Prop := st = stREKEYED ∨ st = stDEL_AFTER_REKEY_IKE_SA_REQ_SENT ∨ st = stDELETED
-
 /-- **the per-object invariant**: the SAD is `base` (what belongs to other objects) plus the keys of the successor's CHILD_SAs plus
     the keys of this IKE_SA's CHILD_SAs, all different; and a successor holds CHILD_SAs only after the hand-over -/
 def FullI (base : List Key) (a p : Bytes) (s : HSt) : Prop :=
@@ -754,8 +751,6 @@ variable (c0 : Option XSa)
     all_goals exact ih _
 @[keepsKernel2] theorem processInformationalRequest_p2 (m) : Keeps (P2 c0) (processInformationalRequest m) := by unfold processInformationalRequest; keeps_p2
 
-
-instance : DecidablePred inPost := fun x => by unfold inPost; infer_instance
 
 theorem checkInStates_fails_p2 (l : List Nat) (hl : ∀ x ∈ l, ¬ inPost x) : Fails (P2 c0) (checkInStates l) := by
   constructor
